@@ -83,11 +83,13 @@ def inproc(case, base):
 
 def e2e(case, base):
     """kernprof in a subprocess; returns the keys of the written stats."""
-    cmd = [sys.executable, '-m', 'kernprof', '-l', '-o', 'out.lprof'] + list(case['cli'])
-    if case.get('module'):
-        cmd += ['-m', case['module']]
-    else:
-        cmd += [case['script']]
+    tail = ['-m', case['module']] if case.get('module') else [case['script']]
+    # a program that does not run cleanly under plain python says nothing about kernprof
+    plain = subprocess.run([sys.executable] + tail, cwd=base, env=dict(os.environ), stdout=subprocess.PIPE,
+                           stderr=subprocess.PIPE, text=True, timeout=120)
+    if plain.returncode != 0:
+        return dict(malformed=True, rc=None, keys=None, stdout='', stderr=plain.stderr[-400:])
+    cmd = [sys.executable, '-m', 'kernprof', '-l', '-o', 'out.lprof'] + list(case['cli']) + tail
     p = subprocess.run(cmd, cwd=base, env=dict(os.environ), stdout=subprocess.PIPE, stderr=subprocess.PIPE,
                        text=True, timeout=120)
     res = dict(rc=p.returncode, stderr=p.stderr[-600:], stdout=p.stdout[-300:], keys=None)
